@@ -309,3 +309,16 @@ pub mod text;
 pub mod transform;
 
 pub use embedded_graphics_core::{pixelcolor, Drawable, Pixel};
+
+/// Verification hooks (only compiled with `--cfg embedded_graphics_verif`).
+#[cfg(embedded_graphics_verif)]
+#[doc(hidden)]
+pub mod verif_hooks {
+    use crate::geometry::Angle;
+
+    /// Returns the operation tag and the two half plane normal vectors computed by
+    /// `PlaneSector::new(angle_start, angle_sweep)`.
+    pub fn plane_sector(angle_start: Angle, angle_sweep: Angle) -> (u8, [i32; 2], [i32; 2]) {
+        crate::primitives::common::PlaneSector::new(angle_start, angle_sweep).verif_parts()
+    }
+}
